@@ -19,7 +19,7 @@ Line-protocol driver for the C20 model (`lake build c20drv`). All numbers are de
   state <b> <block>  (view SnapshotForBlock(b), PreConfirmedStateAt(block))      -> notfound | nobase | <reads>
   statebi <b> <block> <index>                        -> notfound | broken | oob | nobase | <reads>
 
-  classes: `-` or `h:d,h:d`     txs: `-` or `tx;tx`, tx = hash/tag/bad/rhash/rtag/events/diff
+  classes: `-` or `h:d,h:d`     txs: `-` or `tx;tx`, tx = hash/tag/bad/rhash/rtag/events/diff/kind/reverted
   diff: `-` or sections joined by `+`: s=a:k:v,..  n=a:v,..  d=a:c  r=a:c  c1=h:c  m=h:c  c0=h,h
   table: sections joined by `+`: ch=a:c  no=a:n  st=a:k:v  cl=h:d  ca=h:c  c2=h:c  lu=a:k:n  (absent = not found)
   `state` appends ` lu[a:k=<as implemented>/<specified>,..]` (ContractStorageLastUpdatedBlock)
@@ -64,10 +64,11 @@ def parseDiff? (s : String) : Option Diff :=
 
 def parseTx? (s : String) : Option WireTx :=
   match s.splitOn "/" with
-  | [h, tag, bad, rh, rtag, ev, diff] => do
+  | [h, tag, bad, rh, rtag, ev, diff, kind, rev] => do
     let b ← nat? bad
-    pure { tx := { hash := (← nat? h), tag := (← nat? tag) }, bad := b != 0,
-           rcpt := { txHash := (← nat? rh), tag := (← nat? rtag), events := (← nat? ev) },
+    let r ← nat? rev
+    pure { tx := { hash := (← nat? h), tag := (← nat? tag), kind := (← nat? kind) }, bad := b != 0,
+           rcpt := { txHash := (← nat? rh), tag := (← nat? rtag), events := (← nat? ev), reverted := r != 0 },
            diff := (← parseDiff? diff) }
   | _ => none
 
@@ -93,8 +94,8 @@ def showDiff (d : Diff) : String :=
   s!"+c1={showPairs d.declaredV1}+m={showPairs d.migrated}+c0={",".intercalate (d.declaredV0.map toString)}"
 
 def showEntry (e : PreConf) : String :=
-  let txs := ",".intercalate (e.txs.map fun t => s!"{t.hash}.{t.tag}")
-  let rcs := ",".intercalate (e.receipts.map fun r => s!"{r.txHash}.{r.tag}.{r.events}")
+  let txs := ",".intercalate (e.txs.map fun t => s!"{t.hash}.{t.tag}.{t.kind}")
+  let rcs := ",".intercalate (e.receipts.map fun r => s!"{r.txHash}.{r.tag}.{r.events}.{if r.reverted then 1 else 0}")
   let tds := ";".intercalate (e.txDiffs.map showDiff)
   s!"{e.number}~{e.ident}~{e.txCount}~{e.eventCount}~{txs}~{rcs}~{showDiff e.diff}~{tds}~{showPairs e.classes}"
 
@@ -233,14 +234,14 @@ def step (s : DState) (line : String) : DState × String :=
     | some b, some h =>
       (s, match txByHash (snapshotFor s.store b) h with
           | none => "notfound"
-          | some t => s!"{t.hash}.{t.tag}")
+          | some t => s!"{t.hash}.{t.tag}.{t.kind}")
     | _, _ => (s, "bad-op")
   | ["rc", b, h] =>
     match nat? b, nat? h with
     | some b, some h =>
       (s, match receiptByHash (snapshotFor s.store b) h with
           | none => "notfound"
-          | some (r, n) => s!"{r.txHash}.{r.tag}.{r.events}@{n}")
+          | some (r, n) => s!"{r.txHash}.{r.tag}.{r.events}.{if r.reverted then 1 else 0}@{n}")
     | _, _ => (s, "bad-op")
   | ["univ", a, k, c] =>
     match natList? a ",", natList? k ",", natList? c "," with
